@@ -474,22 +474,24 @@ class M:
             A.abort()
             return
         self.adopt()
-        # new committed contents per blob
+        # rebuild the shadow from the committed root: an undo can remove a
+        # blob from the root, and undoing that undo brings it back
         A.begin()
-        for kk, info in list(self.blobs.items()):
-            oid = info['obj']._p_oid
-            cur = self.log.current(oid)
-            if cur is None or cur[1].kind == UNCREATE:
-                info['pending'] = info['committed'] = None
-            else:
-                c = self.F.get((oid, cur[0]))
-                info['pending'] = info['committed'] = c
-        for kk in [x for x, i in self.blobs.items()
-                   if i['committed'] is None]:
-            # un-created (or removed from the root) by the undo
-            name = 'b%d' % kk
-            if name not in A.root():
+        root = A.root()
+        for kk in list(self.blobs):
+            if 'b%d' % kk not in root:
                 del self.blobs[kk]
+        for name in sorted(root.keys()):
+            if not name.startswith('b'):
+                continue
+            kk = int(name[1:])
+            obj = root[name]
+            cur = self.log.current(obj._p_oid)
+            if cur is None or cur[1].kind == UNCREATE:
+                self.blobs.pop(kk, None)
+                continue
+            c = self.F.get((obj._p_oid, cur[0]))
+            self.blobs[kk] = {'obj': obj, 'pending': c, 'committed': c}
         self.trace.append('undo')
         self.after_step('after undo', True)
 
